@@ -25,8 +25,34 @@ Expected ==
 (* C04: the points handed out by each ballot sum to weight times the vector total *)
 HandedOut == LET e == Expected IN SumRat(e, C)
 VecSum == VecTotal(IF T.op = "positional" THEN VecOf(T.vec) ELSE IF T.op = "fpv" THEN <<R(1)>> ELSE BordaVec(Cardinality(C)), Cardinality(C))
+(* ---- direct calls of the helpers behind "elect the top m": elect_cands_from_set_ranking and tiebroken_ranking ---- *)
+TbScore == IF T.tb = "borda" THEN Borda(BagOf(T.bag), C) ELSE Fpv(BagOf(T.bag), C)        \* read only for tb in {borda, first_place}
+ElectClause ==
+  LET rk   == SetSeq(T.ranking)
+      outs == ElectTop(rk, T.m, T.tb, TbScore)
+      tbs  == IF T.tied = <<>> THEN {} ELSE {<<ToSet(T.tied), SetSeq(T.order)>>}
+  IN IF \E o \in outs : o.err
+     THEN (IF T.error = "ValueError" THEN "" ELSE IF T.error = "" THEN "TieOrSeatsNotRefused" ELSE "Error:" \o T.error)
+     ELSE IF T.error # "" THEN "Error:" \o T.error
+     ELSE IF \E o \in outs : o.elected = SetSeq(T.elected) /\ o.remaining = SetSeq(T.remaining) /\ o.tbs = tbs THEN "" ELSE "Elect"
+(* a fully broken ranking: a linear extension of the given ranking of sets in which every tied set is replaced by one of its legal   *)
+(* resolutions (any order for "random", score-descending otherwise), and the dictionary maps exactly the tied sets to what replaced them *)
+Seg(rk, res, i) == [k \in 1..Cardinality(rk[i]) |-> res[CardUpTo(rk, i-1) + k]]
+TiebrokenClause ==
+  LET rk == SetSeq(T.ranking)
+      res == SetSeq(T.result)
+      multi == {i \in 1..Len(rk) : Cardinality(rk[i]) > 1}
+      dict == {<<ToSet(d.tied), SetSeq(d.order)>> : d \in ToSet(T.dict)}
+  IN IF T.error # "" THEN "Error:" \o T.error
+     ELSE IF Len(res) # NumCands(rk) \/ \E i \in 1..Len(res) : Cardinality(res[i]) # 1 THEN "NotLinear"
+     ELSE IF \E i \in 1..Len(rk) : UNION Range(Seg(rk, res, i)) # rk[i] THEN "NotAnExtension"
+     ELSE IF T.tb # "random" /\ \E i \in multi : ~Desc([k \in 1..Cardinality(rk[i]) |-> CHOOSE c \in Seg(rk, res, i)[k] : TRUE], TbScore) THEN "NotByScore"
+     ELSE IF dict # {<<rk[i], Seg(rk, res, i)>> : i \in multi} \/ Cardinality(dict) # Len(T.dict) THEN "Dict"
+     ELSE ""
 Clause ==
-  IF T.op = "ranking" THEN        \* score_dict_to_ranking: groups of equal score, high to low (or low to high)
+  IF T.op = "elect" THEN ElectClause
+  ELSE IF T.op = "tiebroken" THEN TiebrokenClause
+  ELSE IF T.op = "ranking" THEN        \* score_dict_to_ranking: groups of equal score, high to low (or low to high)
        LET sc == ScoresOf(T.scores)  D == DOMAIN sc  g == Group(sc, D)
            want == IF T.high THEN g ELSE [i \in 1..Len(g) |-> g[Len(g) + 1 - i]]
        IN IF SetSeq(T.result) = want THEN "" ELSE "Ranking"
